@@ -861,3 +861,51 @@ fn c17_tick_skip_step_wide() {
     core::mem::forget(r);
     core::mem::forget(buf);
 }
+
+fn tick_skip_boundary(dt: i32, enc: &[u8]) {
+    // TICK_SKIP with a concrete multi-byte dt (variable-length encoding per doc/int.md, checked against
+    // the real decoder below) from a symbolic state
+    let tick: i32 = kani::any();
+    let in_tick: bool = kani::any();
+    let mut bytes = [0u8; 8];
+    bytes[0] = 0x41;
+    let n = enc.len();
+    let mut i = 0;
+    while i < n {
+        bytes[1 + i] = enc[i];
+        i += 1;
+    }
+    assert!(Unpacker::new(&bytes[1..1 + n]).read_int(&mut libtw2_warn::Ignore) == Ok(dt));
+    let mut buf = buffer_with(&bytes, 1 + n);
+    let mut r = reader_state(tick, kani::any(), in_tick, None);
+    let mut cb = TailCb { data: [0; 8], len: 0, done: false };
+    let res = do_read(&mut r, &mut cb, &mut buf);
+    let target = tick as i64 + 1 + dt as i64;
+    match res {
+        Ok((2, t, _, _)) => assert!(in_tick && t == tick && r.tick as i64 == target),
+        Ok((1, t, _, _)) => assert!(!in_tick && t as i64 == target && r.tick == t),
+        Ok(_) => assert!(false),
+        Err(1) => assert!(target > i32::MAX as i64),
+        Err(_) => assert!(false),
+    }
+    if res.is_ok() {
+        assert!(r.tick > tick && r.prev_player_cid.is_none());
+    }
+    core::mem::forget(r);
+    core::mem::forget(buf);
+}
+
+#[kani::proof]
+#[kani::unwind(8)]
+fn c17_tick_skip_step_dt_max() {
+    // the largest dt the format can express: always an overflow error unless tick is very negative -
+    // never a panic, never a wrapped tick
+    tick_skip_boundary(i32::MAX, &[0xbf, 0xff, 0xff, 0xff, 0x0f]);
+}
+
+#[kani::proof]
+#[kani::unwind(8)]
+fn c17_tick_skip_step_dt_multibyte() {
+    tick_skip_boundary(64, &[0x80, 0x01]);
+    tick_skip_boundary(i32::MAX - 1, &[0xbe, 0xff, 0xff, 0xff, 0x0f]);
+}
